@@ -204,6 +204,35 @@ func (o *AccountingOracle) check(r *Run, ssn *framework.Session, at string) {
 		}
 		r.Fail("C14", rule, "at %s: %s", at, fmt.Sprintf(format, args...))
 	}
+	// ---------- a pod whose bind failed in this cycle is not allocated ----------
+	if strings.HasPrefix(at, "after-") {
+		for _, d := range r.Sched.Obs.CycleDecisions(r.cycle) {
+			if d.Kind != "bind" || d.Err == "" || strings.Contains(d.Err, "scheduler process crashed") {
+				continue
+			}
+			job := ssn.ClusterInfo.PodGroupInfos[podGroupID(d.Group)]
+			if job == nil {
+				continue
+			}
+			for _, t := range job.GetAllPodsMap() {
+				if t.Name != d.Pod {
+					continue
+				}
+				r.Probe("c14_failed_binds_checked")
+				if t.Status == pod_status.Allocated || t.Status == pod_status.Binding {
+					laterOK := false // a later, successful decision for the same pod explains the status
+					for _, d2 := range r.Sched.Obs.CycleDecisions(r.cycle) {
+						if d2.Pod == d.Pod && d2.Seq > d.Seq && d2.Err == "" && (d2.Kind == "bind") {
+							laterOK = true
+						}
+					}
+					if !laterOK {
+						fail("task_allocated_after_failed_bind", "pod %s: its bind failed in this cycle (%s) but the scheduler still holds it as %v on node %s", d.Pod, d.Err, t.Status, t.NodeName)
+					}
+				}
+			}
+		}
+	}
 	// ---------- claimed devices (DRA) ----------
 	if r.S.World.HasDRA() {
 		if os.Getenv("KAISIM_DEBUG_DRA") != "" {
